@@ -17,11 +17,16 @@ package handlers
 
 //@ func (s *Start) Handle(response tq.Response, request tq.Request)
 //@   implements tq.Handler.Handle
+//@   before[C09] AuthenticateStart.Handle : fresh(arg0) && arg1 == response && arg2.Header == request.Header && arg2.Body == request.Body
+//@   before[C09] AuthorizeRequest.Handle : fresh(arg0) && arg1 == response && arg2.Header == request.Header && arg2.Body == request.Body
+//@   before[C09] AccountingRequest.Handle : fresh(arg0) && arg1 == response && arg2.Header == request.Header && arg2.Body == request.Body
 //@   requires s != nil && s.loggerProvider != nil && s.configProvider != nil
 //@   requires isConst(tq.HeaderType, request.Header.Type)
 
 //@ func (a *AuthenticateStart) Handle(response tq.Response, request tq.Request)
 //@   implements tq.Handler.Handle
+//@   before[C09] Handler.Handle : (typeOf(arg0) == *AuthenticateASCII ==> fresh(arg0.(*AuthenticateASCII))) && (typeOf(arg0) == *AuthenticatePAP ==> fresh(arg0.(*AuthenticatePAP)))
+//@   before[C09] Handler.Handle : arg1 == response && arg2.Header == request.Header && arg2.Body == request.Body
 //@   taints[C18] request.Body 1
 //@   ensures[C10] ghost.authenPass != old(ghost.authenPass) ==> request.Header.Version.MinorVersion == tq.MinorVersionOne
 //@   requires a != nil && a.loggerProvider != nil && a.configProvider != nil && a.recorderWriter != nil
